@@ -61,7 +61,8 @@ def check_scripts(env, rep, prop, scripts, oracle, nontrivial=None):
             rep.oracle_fail(case, f"exception reached the event loop: {e}", key="loop-exception")
         v = oracle(res)
         if v:
-            rep.oracle_fail(case, v, key=prop + ":" + v.split(":")[0])
+            # a corpus script that documents a recorded finding names that finding's key itself
+            rep.oracle_fail(case, v, key=script.get("finding_key") or (prop + ":" + v.split(":")[0]))
         if res["same_tick_inputs"]:
             rep.count("discarded:same-tick-inputs")
             continue
